@@ -160,4 +160,13 @@ CLAIMED["C08"] = {"text": "Coq theorems (for every parser satisfying load_ok): o
                  "not-yet-existing directories, with key identity, key/certificate match, file bytes+mtime and permission bits observed.",
          "note": TB + "crash = constructed prefix (no process is killed mid-write); umask 022; mode literals checked in the source per run.",
          "technique": "Coq proof under an explicit parser hypothesis + exhaustive crash-point / corruption enumeration judged by vm_compute"}
+CLAIMED["C20"] = {"text": "Coq theorems over the control-flow model of rmain for every configuration, fault set and way of ending: never Panic; on every exit "
+                 "the terminal is not left raw (no log.Fatalf after MakeRaw: every later way out is a return, so the deferred cleanup runs); the first "
+                 "start-up step that cannot succeed gives a non-zero status naming that cause; otherwise status 0; -print-default-template succeeds "
+                 "under every fault; -print-ctrl-i depends only on the log file and the Ctrl+I source. PARTIAL: tie = the real binary run in 56 "
+                 "scenarios (every single fault, pairs, informational flags x three terminal situations incl. a controlling pty with stdin from "
+                 "/dev/null and no controlling terminal; exits by Ctrl+D, Ctrl+C and stdin EOF) with exit status, panic text, cause and termios "
+                 "before/after compared with the model in Coq.",
+         "note": TB + "goxterm.MakeRaw/Restore, the flag package's -h, and OS error wording are environment.",
+         "technique": "Coq proof (total case analysis of the start-up sequence) + real-binary pty scenarios judged by vm_compute"}
 NOT_CLAIMED = {}
